@@ -54,6 +54,12 @@ pub struct GenCfg {
     pub shared_item_names: bool,
     /// many globals (order of maps in saves)
     pub many_globals: bool,
+    /// choice text is words and {variable} only (nothing whose evaluation has effects)
+    pub plain_choice_text: bool,
+    /// never write glue and tags on the same line (what a tag does to pending glue is not pinned down by the language)
+    pub no_glue_with_tags: bool,
+    /// functions call later functions (as a statement or at the start of a line), both printing text
+    pub nested_functions: bool,
 }
 
 impl GenCfg {
@@ -96,6 +102,9 @@ impl GenCfg {
             hostile_words: false,
             shared_item_names: false,
             many_globals: false,
+            plain_choice_text: false,
+            no_glue_with_tags: false,
+            nested_functions: false,
         }
     }
     /// everything, including the nondeterministic-looking features (for lockstep oracles)
@@ -586,6 +595,9 @@ impl<'a> Builder<'a> {
 
     fn content_line(&mut self) -> Stmt {
         let mut v = self.inline_pieces(true, false);
+        if self.cfg.no_glue_with_tags && v.iter().any(|x| matches!(x, Inline::Tag(_))) {
+            return Stmt::Line(v, None);
+        }
         if self.cfg.glue && self.rng.chance(1, 6) {
             // trailing glue must come before tags
             let pos = v.iter().position(|x| matches!(x, Inline::Tag(_))).unwrap_or(v.len());
@@ -812,20 +824,33 @@ impl<'a> Builder<'a> {
         Target::Named(format!("k{j}"))
     }
 
+    fn choice_pieces(&mut self, simple: bool) -> Vec<Inline> {
+        if !self.cfg.plain_choice_text {
+            return self.inline_pieces(false, simple);
+        }
+        let mut v = vec![Inline::Text(self.text())];
+        if !simple {
+            v.push(Inline::Text(" ".into()));
+            let g = self.rng.pick(&self.meta.int_globals.clone()).clone();
+            v.push(Inline::Expr(Expr::Var(g)));
+        }
+        v
+    }
+
     fn choice_text(&mut self) -> (Vec<Inline>, Option<Vec<Inline>>, Vec<Inline>) {
         let simple = self.rng.chance(2, 3);
         // spaces are written outside the brackets ("start [only] end"), the documented layout
         match self.rng.below(5) {
-            0 => (self.inline_pieces(false, simple), None, vec![]),
-            1 => (vec![], Some(self.inline_pieces(false, simple)), vec![]),
+            0 => (self.choice_pieces(simple), None, vec![]),
+            1 => (vec![], Some(self.choice_pieces(simple)), vec![]),
             2 => {
-                let mut st = self.inline_pieces(false, simple);
+                let mut st = self.choice_pieces(simple);
                 st.push(Inline::Text(" ".into()));
                 (st, Some(vec![Inline::Text(self.word())]), vec![Inline::Text(format!(" {}", self.text()))])
             }
-            3 => (vec![], Some(self.inline_pieces(false, simple)), vec![Inline::Text(self.text())]),
+            3 => (vec![], Some(self.choice_pieces(simple)), vec![Inline::Text(self.text())]),
             _ => {
-                let mut st = self.inline_pieces(false, simple);
+                let mut st = self.choice_pieces(simple);
                 st.push(Inline::Text(" ".into()));
                 (st, Some(vec![]), vec![Inline::Text(self.text())])
             }
@@ -1069,7 +1094,32 @@ impl<'a> Builder<'a> {
         self.cur_scope = plan.name.clone();
         let mut v = Vec::new();
         let n = if self.cfg.multiline_functions { self.rng.below(3) } else { self.rng.below(2) };
+        let my_index: usize = plan.name.trim_start_matches("fn").parse().unwrap_or(0);
+        let later: Vec<(String, Vec<Ty>, Ty)> = self
+            .meta
+            .functions
+            .iter()
+            .filter(|f| f.0.trim_start_matches("fn").parse::<usize>().map(|j| j > my_index).unwrap_or(false))
+            .cloned()
+            .collect();
         for _ in 0..n {
+            if self.cfg.nested_functions && !later.is_empty() && self.rng.chance(1, 2) {
+                let f = self.rng.pick(&later).clone();
+                let args: Vec<Expr> = f.1.iter().map(|t| match t { Ty::Str => self.str_expr(0), _ => self.int_atom() }).collect();
+                let call = Expr::Call(f.0.clone(), args);
+                match self.rng.below(3) {
+                    0 => v.push(Stmt::Eval(call)),
+                    1 => {
+                        let t = self.text();
+                        v.push(Stmt::Line(vec![Inline::Expr(call), Inline::Text(format!(" {t}"))], None));
+                    }
+                    _ => {
+                        let t = self.text();
+                        v.push(Stmt::Line(vec![Inline::Text(format!("{t} ")), Inline::Expr(call)], None));
+                    }
+                }
+                continue;
+            }
             if self.cfg.pure_functions {
                 // no sequences (they count visits), no assignments
                 let mut pieces = vec![Inline::Text(self.text())];
